@@ -233,6 +233,7 @@ theorem processCommand_queued {s : Sys} (mode : Mode) (c : Nat) (nameB : Bytes) 
     (hname : commandName nameB = some n) (hus : n.startsWith "_" = false)
     (hfind : SigTable.find n = some sig) (harity : sig.checkArity args.length = true)
     (hnq : SigTable.notQueued.contains sig.name = false)
+    (hnm : SigTable.notInMulti.contains sig.name = false)
     (htx : (s.conn c).tx = some q) :
     processCommand mode c (nameB :: args) s = (do
       let now ← nextClock
@@ -240,7 +241,26 @@ theorem processCommand_queued {s : Sys} (mode : Mode) (c : Nat) (nameB : Bytes) 
       modifyConn c fun x => { x with tx := x.tx.map (· ++ [(sig.name, args)]) }
       emit c .queued : M Unit) s := by
   unfold processCommand
-  simp only [bind, StateT.bind, getConn_run, hname, hus, hfind, cleanupClosed_run_nil hclosed, harity, htx, hnq,
+  simp only [bind, StateT.bind, getConn_run, hname, hus, hfind, cleanupClosed_run_nil hclosed, harity, htx, hnq, hnm,
+    Bool.false_eq_true, ↓reduceIte, Option.isSome_some, Bool.not_false, Bool.not_true, Bool.and_self]
+
+/-- (P)SUBSCRIBE / (P)UNSUBSCRIBE while a MULTI is open: refused at queue time, nothing is queued, the
+transaction is marked failed (companion of `processCommand_queued`) -/
+theorem processCommand_refused {s : Sys} (mode : Mode) (c : Nat) (nameB : Bytes) (args : List Bytes)
+    {n : String} {sig : Sig} {q : List (String × List Bytes)}
+    (hclosed : s.srv.closedSockets = [])
+    (hname : commandName nameB = some n) (hus : n.startsWith "_" = false)
+    (hfind : SigTable.find n = some sig) (harity : sig.checkArity args.length = true)
+    (hnq : SigTable.notQueued.contains sig.name = false)
+    (hnm : SigTable.notInMulti.contains sig.name = true)
+    (htx : (s.conn c).tx = some q) :
+    processCommand mode c (nameB :: args) s = (do
+      let now ← nextClock
+      modify fun s => { s with srv := { s.srv with time := now } }
+      modifyConn c fun x => { x with txFailed := true }
+      emit c (.err (strBytes Msgs.COMMAND_IN_MULTI_MSG)) : M Unit) s := by
+  unfold processCommand
+  simp only [bind, StateT.bind, getConn_run, hname, hus, hfind, cleanupClosed_run_nil hclosed, harity, htx, hnq, hnm,
     Bool.false_eq_true, ↓reduceIte, Option.isSome_some, Bool.not_false, Bool.not_true, Bool.and_self]
 
 
@@ -871,10 +891,27 @@ theorem processCommand_queued_state {s : Sys} (mode : Mode) (c : Nat) (nameB : B
     (hname : commandName nameB = some n) (hus : n.startsWith "_" = false)
     (hfind : SigTable.find n = some sig) (harity : sig.checkArity args.length = true)
     (hnq : SigTable.notQueued.contains sig.name = false)
+    (hnm : SigTable.notInMulti.contains sig.name = false)
     (htx : (s.conn c).tx = some q) :
     processCommand mode c (nameB :: args) s = ((),
       (s.refresh.updConn c fun x => { x with tx := x.tx.map (· ++ [(sig.name, args)]) }).emitS c .queued) := by
-  rw [processCommand_queued mode c nameB args hclosed hname hus hfind harity hnq htx]
+  rw [processCommand_queued mode c nameB args hclosed hname hus hfind harity hnq hnm htx]
+  simp only [bind, StateT.bind, modifyConn_run, emit_run]
+  rfl
+
+/-- the refused (P)SUBSCRIBE / (P)UNSUBSCRIBE inside MULTI: only the clock refresh, `txFailed`, the error reply -/
+theorem processCommand_refused_state {s : Sys} (mode : Mode) (c : Nat) (nameB : Bytes) (args : List Bytes)
+    {n : String} {sig : Sig} {q : List (String × List Bytes)}
+    (hclosed : s.srv.closedSockets = [])
+    (hname : commandName nameB = some n) (hus : n.startsWith "_" = false)
+    (hfind : SigTable.find n = some sig) (harity : sig.checkArity args.length = true)
+    (hnq : SigTable.notQueued.contains sig.name = false)
+    (hnm : SigTable.notInMulti.contains sig.name = true)
+    (htx : (s.conn c).tx = some q) :
+    processCommand mode c (nameB :: args) s = ((),
+      (s.refresh.updConn c fun x => { x with txFailed := true }).emitS c
+        (.err (strBytes Msgs.COMMAND_IN_MULTI_MSG))) := by
+  rw [processCommand_refused mode c nameB args hclosed hname hus hfind harity hnq hnm htx]
   simp only [bind, StateT.bind, modifyConn_run, emit_run]
   rfl
 
